@@ -18,6 +18,7 @@ mod grad;
 mod gs;
 mod json;
 mod nop;
+mod psplit;
 mod rng;
 mod settings;
 mod strains;
@@ -44,6 +45,7 @@ fn main() {
         "conv" => conv::main(arg(&args, 2, 0), arg(&args, 3, 100), arg(&args, 4, 40)),
         "nop" => nop::main(arg(&args, 2, 0), arg(&args, 3, 0), arg(&args, 4, 100), args.get(5).map_or(false, |s| s == "real")),
         "banana" => nop::banana_main(arg(&args, 2, 0), arg(&args, 3, 100)),
+        "psplit" => psplit::main(arg(&args, 2, 0), arg(&args, 3, 100)),
         "fin" => fin::main(arg(&args, 2, 0), arg(&args, 3, 100), arg(&args, 4, 30)),
         "gperf" => gperf::main(arg(&args, 2, 0), arg(&args, 3, 100), arg(&args, 4, 40)),
         "grad" => grad::main(arg(&args, 2, 0), arg(&args, 3, 100), arg(&args, 4, 40)),
